@@ -12,7 +12,7 @@ open GV.Src.GeoJson (Kw PolygonS BoxS CurvedS RingS LineS PointS PolyM MPolyS ML
   ringLinearRings mpolyLinearRings boxBounds pointBounds pointCentroid polygonToGeoInterface boxToGeoInterface
   curvedToGeoInterface ringToGeoInterface lineGeoInterface lineToGeoInterface pointGeoInterface pointToGeoInterface
   mlineGeoInterface mlineToGeoInterface mpointGeoInterface mpointToGeoInterface mpolyToGeoInterface startDt endDt
-  propertiesJson getDtFromGeojsonProps pointFromGeoJson lineFromGeoJson mpointFromGeoJson mlineFromGeoJson jIter)
+  propertiesJson getDtFromGeojsonProps pointFromGeoJson lineFromGeoJson mpointFromGeoJson mlineFromGeoJson polygonFromGeoJson mpolyFromGeoJson jIter)
 
 variable (rt : Rt)
 
@@ -589,6 +589,176 @@ theorem mlineFromGeoJson_eq (d : Obj) (ks ke : String) (harr : arr2 (oget (geomO
       | _ => simp [Except.map]
   · have harr' : arr2 (oget d "coordinates") = true := by simpa [geomOf, hc] using harr
     type_gate d, "MultiLineString" => coords_mline d, d, ks, ke, rt
+
+/-! ### the polygon importers: a loop that appends to `rings` / `shapes` -/
+
+/-- the ring loop of `GeoPolygon.from_geojson` reads the rings left to right (the model's `mapE ringOfJ`) and then runs
+    the rest of the function on the collected rings -/
+theorem polygonLoop1_spec (d : Obj) (ks ke : String) (g : Obj) :
+    ∀ (xs : List J) (acc : List (List Pos)), (∀ x ∈ xs, isArr x = true) →
+      polygonFromGeoJson.loop1 rt d ks ke g xs acc =
+        match GeoJson.mapE ringOfJ xs with
+        | .error e => .error e
+        | .ok rs => polygonFromGeoJson.loop1 rt d ks ke g [] (acc ++ rs) := by
+  intro xs
+  induction xs with
+  | nil => intro acc _; simp [GeoJson.mapE]
+  | cons x xs ih =>
+    intro acc h
+    have hx := h x (by simp)
+    cases x <;> simp [isArr] at hx
+    rename_i ps
+    rw [polygonFromGeoJson.loop1]
+    simp only [jIter]
+    rw [pyMapE_eq_of _ posOfJ (fun x => by cases posOfJ x <;> rfl)]
+    simp only [GeoJson.mapE, ringOfJ, bind, Except.bind, pure, Except.pure]
+    cases GeoJson.mapE posOfJ ps with
+    | error e => rfl
+    | ok r =>
+      simp only []
+      rw [ih _ (fun y hy => h y (by simp [hy]))]
+      cases GeoJson.mapE ringOfJ xs with
+      | error e => rfl
+      | ok rs => simp [List.append_assoc]
+
+/-- what the model's `GeoPolygon` importer does once the rings are read: the holes through the constructor, the
+    properties and time fields, then the constructor on the shell -/
+def polygonRest (d : Obj) (ks ke : String) (rings : List (List Pos)) : Except String Shape := do
+  let holes ← GeoJson.mapE (fun r => mkOutlineP r) rings.tail
+  let x ← propsAndDt rt d ks ke
+  let o ← mkOutlineP (rings.headD [])
+  pure ⟨.polygon ⟨o, holes⟩, x.1, x.2.1⟩
+
+theorem polygonTail1 (d : Obj) (ks ke : String) (g : Obj) (rings : List (List Pos)) :
+    polygonFromGeoJson.loop1 rt d ks ke g [] rings = polygonRest rt d ks ke rings := by
+  rw [polygonFromGeoJson.loop1]
+  simp only [getDt_eq, polygonInitDefault_eq, polygonRest, propsAndDt, bind, Except.bind, pure, Except.pure]
+  rw [pyMapE_eq_of _ (fun r => mkOutlineP r) (fun x => by first | rfl | (cases mkOutlineP x <;> rfl))]
+  match rings with
+  | [] =>
+    simp [GeoJson.mapE, Py.getIdx, mkOutlineP]
+    props_tail d, ks, ke, rt
+  | [a] =>
+    simp only [List.length_singleton, List.tail_cons, List.headD_cons, GeoJson.mapE, Py.getIdx]
+    cases ho : mkOutlineP a <;> simp <;> props_tail d, ks, ke, rt
+  | a :: b :: t =>
+    simp only [List.tail_cons, List.headD_cons, List.drop_succ_cons, List.drop_zero, Py.getIdx]
+    have hl : decide ((((a :: b :: t).length : Nat) : Int) > (1 : Int)) = true := by simp <;> omega
+    simp only [hl, if_true]
+    cases hh : GeoJson.mapE (fun r => mkOutlineP r) (b :: t) with
+    | error e => simp
+    | ok hs =>
+      cases ho : mkOutlineP a <;> simp <;> props_tail d, ks, ke, rt
+
+/-- (the same loop in the branch where `geom` is the `geometry` member) it reads the rings left to right (the model's `mapE ringOfJ`) and then runs
+    the rest of the function on the collected rings -/
+theorem polygonLoop2_spec (d : Obj) (ks ke : String) (g : J) :
+    ∀ (xs : List J) (acc : List (List Pos)), (∀ x ∈ xs, isArr x = true) →
+      polygonFromGeoJson.loop2 rt d ks ke g xs acc =
+        match GeoJson.mapE ringOfJ xs with
+        | .error e => .error e
+        | .ok rs => polygonFromGeoJson.loop2 rt d ks ke g [] (acc ++ rs) := by
+  intro xs
+  induction xs with
+  | nil => intro acc _; simp [GeoJson.mapE]
+  | cons x xs ih =>
+    intro acc h
+    have hx := h x (by simp)
+    cases x <;> simp [isArr] at hx
+    rename_i ps
+    rw [polygonFromGeoJson.loop2]
+    simp only [jIter]
+    rw [pyMapE_eq_of _ posOfJ (fun x => by cases posOfJ x <;> rfl)]
+    simp only [GeoJson.mapE, ringOfJ, bind, Except.bind, pure, Except.pure]
+    cases GeoJson.mapE posOfJ ps with
+    | error e => rfl
+    | ok r =>
+      simp only []
+      rw [ih _ (fun y hy => h y (by simp [hy]))]
+      cases GeoJson.mapE ringOfJ xs with
+      | error e => rfl
+      | ok rs => simp [List.append_assoc]
+
+theorem polygonTail2 (d : Obj) (ks ke : String) (g : J) (rings : List (List Pos)) :
+    polygonFromGeoJson.loop2 rt d ks ke g [] rings = polygonRest rt d ks ke rings := by
+  rw [polygonFromGeoJson.loop2]
+  simp only [getDt_eq, polygonInitDefault_eq, polygonRest, propsAndDt, bind, Except.bind, pure, Except.pure]
+  rw [pyMapE_eq_of _ (fun r => mkOutlineP r) (fun x => by first | rfl | (cases mkOutlineP x <;> rfl))]
+  match rings with
+  | [] =>
+    simp [GeoJson.mapE, Py.getIdx, mkOutlineP]
+    props_tail d, ks, ke, rt
+  | [a] =>
+    simp only [List.length_singleton, List.tail_cons, List.headD_cons, GeoJson.mapE, Py.getIdx]
+    cases ho : mkOutlineP a <;> simp <;> props_tail d, ks, ke, rt
+  | a :: b :: t =>
+    simp only [List.tail_cons, List.headD_cons, List.drop_succ_cons, List.drop_zero, Py.getIdx]
+    have hl : decide ((((a :: b :: t).length : Nat) : Int) > (1 : Int)) = true := by simp <;> omega
+    simp only [hl, if_true]
+    cases hh : GeoJson.mapE (fun r => mkOutlineP r) (b :: t) with
+    | error e => simp
+    | ok hs =>
+      cases ho : mkOutlineP a <;> simp <;> props_tail d, ks, ke, rt
+
+/-- absent, or a list of lists (the rings of a polygon) -/
+theorem arr2_some {c : J} (h : arr2 (some c) = true) : ∃ xs, c = .arr xs ∧ ∀ x ∈ xs, isArr x = true := by
+  cases c <;> simp [arr2] at h
+  exact ⟨_, rfl, h⟩
+
+set_option hygiene false in
+/-- the model's polygon importer once the geometry dict is known to be `g` with `coordinates` a list of lists `xs` -/
+local macro "polygon_model" : tactic =>
+  `(tactic| (
+    simp only [polygonRest, geomLate, Except.map, bind, Except.bind, pure, Except.pure]
+    cases GeoJson.mapE (fun r => mkOutlineP r) _ <;> simp only [] <;>
+      cases propsAndDt rt d ks ke <;> simp only [] <;>
+        cases mkOutlineP _ <;> rfl))
+
+/-- **`GeoPolygon.from_geojson`**: the ring loop, the holes through `GeoPolygon(ring)`, the time fields popped from a copy
+    of the properties, the shell through the constructor -/
+theorem polygonFromGeoJson_eq (d : Obj) (ks ke : String) (harr : arr2 (oget (geomOf d) "coordinates") = true) :
+    polygonFromGeoJson rt d ks ke = (fromGeoJson rt .polygon (.obj d) ks ke).map (·.1) := by
+  simp only [polygonFromGeoJson, fromGeoJson, selectGeom, Kind.name, checkType, geomEarly]
+  cases hc : ohas d "coordinates" <;> simp only [Bool.false_eq_true, if_false, if_true]
+  · cases hg : oget d "geometry" with
+    | none => simp [oget, Except.map]
+    | some g =>
+      cases g with
+      | obj g =>
+        simp only [Option.getD_some]
+        have harr' : arr2 (oget g "coordinates") = true := by simpa [geomOf, hc, hg] using harr
+        type_gate g, "Polygon" =>
+          cases hco : oget g "coordinates" with
+          | none =>
+            simp only [Option.getD_none, jIter, polygonTail2, ht, hp, hco, listOfJ, bind, Except.bind, pure,
+              Except.pure, if_true]
+            polygon_model
+          | some c =>
+            obtain ⟨xs, rfl, hxs⟩ := arr2_some (hco ▸ harr')
+            simp only [Option.getD_some, jIter, polygonLoop2_spec rt d ks ke _ xs [] hxs, ht, hp, hco, listOfJ, bind,
+              Except.bind, pure, Except.pure, if_true, List.nil_append]
+            cases GeoJson.mapE ringOfJ xs with
+            | error e => simp [Except.map]
+            | ok rs =>
+              simp only [polygonTail2]
+              polygon_model
+      | _ => simp [Except.map]
+  · have harr' : arr2 (oget d "coordinates") = true := by simpa [geomOf, hc] using harr
+    type_gate d, "Polygon" =>
+      cases hco : oget d "coordinates" with
+      | none =>
+        simp only [Option.getD_none, jIter, polygonTail1, ht, hp, hco, listOfJ, bind, Except.bind, pure,
+          Except.pure, if_true]
+        polygon_model
+      | some c =>
+        obtain ⟨xs, rfl, hxs⟩ := arr2_some (hco ▸ harr')
+        simp only [Option.getD_some, jIter, polygonLoop1_spec rt d ks ke _ xs [] hxs, ht, hp, hco, listOfJ, bind,
+          Except.bind, pure, Except.pure, if_true, List.nil_append]
+        cases GeoJson.mapE ringOfJ xs with
+        | error e => simp [Except.map]
+        | ok rs =>
+          simp only [polygonTail1]
+          polygon_model
 
 /-! ## the export chain as the source dispatches it
 
